@@ -3,21 +3,23 @@ import json
 import os
 
 
-def cfg_text(start, ver, maxfree, ts="{1}", iddesc="FALSE", forkfrom=5):
+def cfg_text(start, ver, maxfree, ts="{1}", iddesc="FALSE", forkfrom=5, triples="TRUE"):
     return ("SPECIFICATION Spec\nCONSTANTS\n  Start = %d\n  Ver = \"%s\"\n  MaxFree = %d\n  ForkFrom = %d\n"
-            "  TSChoices = %s\n  IdDesc = %s\nINVARIANTS Emit\nCHECK_DEADLOCK FALSE\n"
-            % (start, ver, maxfree, forkfrom, ts, iddesc))
+            "  TSChoices = %s\n  IdDesc = %s\n  Triples = %s\nINVARIANTS Emit\nCHECK_DEADLOCK FALSE\n"
+            % (start, ver, maxfree, forkfrom, ts, iddesc, triples))
 
 
 def plans(tier):
-    """(start, version, MaxFree, TSChoices, IdDesc) per TLC run."""
+    """(start, version, MaxFree, TSChoices, IdDesc, Triples) per TLC run."""
     if tier == "quick":
-        return [(1, "10", 2, "{1}", "FALSE"), (1, "12", 2, "{1}", "TRUE"), (1, "1", 2, "{1}", "FALSE"),
-                (2, "10", 1, "{1, 2}", "TRUE"), (2, "12", 1, "{1, 2}", "FALSE"), (2, "1", 1, "{1}", "TRUE")]
+        return [(3, "10", 2, "{1}", "FALSE", "FALSE"), (3, "12", 2, "{1}", "FALSE", "FALSE"),
+                (1, "10", 2, "{1}", "FALSE", "TRUE"), (1, "12", 2, "{1}", "TRUE", "FALSE"), (1, "1", 2, "{1}", "FALSE", "FALSE"),
+                (2, "10", 1, "{1, 2}", "TRUE", "TRUE"), (2, "12", 1, "{1, 2}", "FALSE", "TRUE"), (2, "1", 1, "{1}", "TRUE", "TRUE")]
     out = []
     for ver in ["1", "2", "6", "10", "11", "12", "org.matrix.hydra.11"]:
-        out.append((1, ver, 2, "{1, 2}", "FALSE"))
-        out.append((2, ver, 2, "{1}", "TRUE"))
+        out.append((1, ver, 2, "{1, 2}", "FALSE", "TRUE"))
+        out.append((2, ver, 2, "{1}", "TRUE", "FALSE"))
+        out.append((3, ver, 2, "{1}", "FALSE", "FALSE"))
     return out
 
 
@@ -26,10 +28,10 @@ def generate(ctx):
     seen = set()
     out = []
     d = ctx._spec_dir()
-    for n, (start, ver, mf, ts, idd) in enumerate(plans(ctx.tier)):
+    for n, (start, ver, mf, ts, idd, tri) in enumerate(plans(ctx.tier)):
         cfg = "Room_gen_%s_%d.cfg" % (ctx.tier, n)
         with open(os.path.join(d, cfg), "w") as f:
-            f.write(cfg_text(start, ver, mf, ts, idd))
+            f.write(cfg_text(start, ver, mf, ts, idd, triples=tri, forkfrom=(10 if start == 3 else 5)))
         r = ctx.tlc("Room_gen", cfg, timeout=3000)
         for rec in r.records:
             k = json.dumps(rec, sort_keys=True)
